@@ -420,6 +420,7 @@ class GcModel:
     def prims(self):
         m = self
         P = {}
+        ip_prims = I.BASE_PRIMS
 
         def header(ip, st, args, info):
             oid = _obj_of(ip, st, args[0])
@@ -584,6 +585,22 @@ class GcModel:
         P["gc::GcStore::from_store"] = erase
         P["gc::GcStore::to_store"] = erase
         P["gc_ptr::GcPtr::as_ref"] = as_ref
+        for nme in ("Cell::swap", "Cell::replace", "Cell::take", "Cell::update", "RefCell::swap", "RefCell::replace",
+                    "RefCell::replace_with", "RefCell::take", "RefCell::update"):
+            def mk(nme=nme):
+                base = ip_prims.get("core::cell::" + nme)
+
+                def h(ip, st, args, info):
+                    # on the collector's own modelled memory: the interpreter's cell semantics; on a value inside an
+                    # allocation (opaque to the model): a store event
+                    if args and args[0][0] == "ref" and args[0][1] in st.mem and base is not None:
+                        return base(ip, st, args, info)
+                    if args and args[0][0] == "ref" and args[0][1] in st.mem:
+                        return NotImplemented
+                    st.event("cell_store", nme)
+                    return [(st, "ret", TOP)]
+                return h
+            P["core::cell::" + nme] = mk()
         P["core::cell::RefCell::borrow_mut"] = cell_store("RefCell::borrow_mut")
         P["core::cell::RefCell::try_borrow_mut"] = cell_store("RefCell::try_borrow_mut")
         P["core::cell::once::OnceCell::set"] = once_set
